@@ -40,8 +40,9 @@ LEVEL_TEXT = (
     "must reproduce."
 )
 LEVEL_NOTE = (
-    "not modelled: switches inside one source line of the whitelisted code "
-    "are at line (not bytecode) granularity; switches inside non-"
+    "granularity: source lines of the whitelisted functions, and every "
+    "BYTECODE of the read-modify-write functions in the '-opcode' "
+    "harnesses; not modelled: switches inside non-"
     "whitelisted code (the search itself works on per-call objects) and "
     "inside C extensions; 'stress runs with a tiny switch interval' from "
     "the property text are sampling and not used to decide"
@@ -120,6 +121,11 @@ def harnesses(tier):
         ("rh-disk-2x1", "rh-disk", [["A"], ["B"]], b),
         ("rrg-mem-2x1", "rrg-mem", [["A"], ["B"]], b),
         ("auto-cache-2x1", "auto-cache", [["A"], ["B"]], b),
+        # bytecode granularity inside the functions that read-modify-write
+        # the shared dictionaries
+        ("rh-mem-2x1-opcode", "rh-mem", [["A"], ["B"]], b2),
+        ("rh-mem-2x1-same-opcode", "rh-mem", [["A"], ["A2"]], b2),
+        ("auto-cache-2x1-opcode", "auto-cache", [["A"], ["B"]], b2),
         ("auto-nocache-2x1", "auto-nocache", [["A"], ["B"]], b2),
         ("auto-nocache-2x2", "auto-nocache", [["A", "C"], ["C", "B"]], 1),
     ]
@@ -157,6 +163,10 @@ WHITELIST = {
         ("cotengra/hyperoptimizers/hyper.py", "_search"),
     ],
 }
+
+
+OPCODE_FUNCS = ("_maybe_run_optimizer", "_run_optimizer", "search",
+                "last_opt", "_get_optimizer_hyper_threadsafe", "hash_query")
 
 
 def make_optimizer(kind, root):
@@ -227,7 +237,9 @@ def work_conc(idx, tier, seed, res):
         return bad, tuple(outcome) + (len(ex.points),)
 
     try:
-        exp = sched.Explorer(make_bodies, WHITELIST[kind], check, bound=bound)
+        exp = sched.Explorer(
+            make_bodies, WHITELIST[kind], check, bound=bound,
+            opcode_funcs=OPCODE_FUNCS if name.endswith("-opcode") else ())
         exp.explore()
     finally:
         shutil.rmtree(root, ignore_errors=True)
